@@ -26,7 +26,14 @@ LEVEL_TEXT = ("chain_sound / cycle_sound / chains_agree': if the executable chec
               "proved sound (checked_edges_ok). Per run, decide +kernel re-checks the certificate against the 212 declarations "
               "intercepted from /repo (tight 1e-12, 13 declarations with rounded constants at <= 1e-5, measured worst 2.0e-6), against "
               "all 421 stored graph ratios, and checks that every base unit with a physical dimension is reachable from the SI seeds. "
-              "All 167 named physical units are converted to their coherent SI unit and back on the real library and in the model.")
+              "All 167 named physical units are converted to their coherent SI unit and back on the real library and in the model. "
+              "CONNECTED => CONVERTS as a theorem for the fundamental dimensions: the (pure) path search is complete - an empty "
+              "result means the target is unreachable along declared edges (flatPath_complete: the dead-end invariant of the "
+              "depth-first walk) - and total on the regenerated graph, so units of one fundamental dimension that are linked by "
+              "declarations convert into each other, with any prefixes, also as factors of simple compound units, in every state "
+              "(convert_flat_connected, convert_simple_connected); per run the kernel checks a reachability certificate: the 90 "
+              "units of the 6 fundamental dimensions in the regenerated graph are mutually reachable (fund_connected -> "
+              "shipped_fundamental_units_interconvert, shipped_simple_units_interconvert).")
 LEVEL_NOTE = ("Trusted: Lean kernel + Mathlib ordered-field lemmas (linarith/nlinarith/gcongr/ring), translators gen_init/gen_sizes "
               "(the certificate itself is untrusted and re-checked). The bound for a chain grows with its length k; with the measured "
               "residuals only 13 declarations are inexact. Known findings: TonOfRefrigeration's two definitions differ by 6.7e-4 "
@@ -38,7 +45,12 @@ THEOREMS = [
     "Measured.checked_edges_ok", "Measured.chain_bound", "Measured.chains_agree",
     "Measured.Obligations.shipped_decls_ok", "Measured.Obligations.shipped_graph_ok",
     "Measured.Obligations.shipped_connected", "Measured.Obligations.shipped_chains_agree",
+    "Measured.flatPath_complete", "Measured.findPath_connected", "Measured.convert_flat_connected",
+    "Measured.convert_simple_connected",
+    "Measured.Obligations.NearShipped.fund_connected", "Measured.Obligations.NearShipped.shipped_fundamental_units_interconvert",
+    "Measured.Obligations.NearShipped.shipped_simple_units_interconvert", "Measured.Obligations.NearShipped.shipped_speed_converts",
 ]
+LEAN_TARGETS = ["Props.C09", "Obligations.C09", "Obligations.C09Flat"]
 QUICK = {"chunks": 1, "ops": 2000}
 THOROUGH = {"chunks": 1, "ops": 2000}
 RULE = ("exhaustive: every intercepted declaration, every stored ratio, every named unit with a physical dimension "
